@@ -16,7 +16,7 @@ checked on every observed result.
 import time
 
 from harness import dagutil as du
-from harness.common import Driver, Result
+from harness.common import Driver, Result, impl_guard
 
 LEVEL = "proof"
 TRUSTED_BASE = [
@@ -315,7 +315,12 @@ def one_walk(ctx, res, drv, rng, init, steps, malformed_rate=0.04, query_every=1
         if err:
             res.count("errors", err)
         if err == "key" and ed[0] == "I":
-            break  # orphan node left behind by the failed _insert_at: outside the property (see handoff)
+            # orphan node left behind by the failed _insert_at: the state is outside the property (see handoff) — for an ill-formed call.
+            # A well-formed insert_at that raises is reported like every other well-formed edit that raises (it used to be dropped here).
+            if not mal:
+                report_violation(res, h, s, f"api:{ed[0]}:raises:{err}", f"{du.edit_token(ed)} raised {err} on a well-formed call")
+                taint = True
+            break
         qs = choose_queries(rng, h.circ, full)
         h.qs[-1] = qs
         h.ans[-1] = du.answers(h.circ, qs)
@@ -500,21 +505,28 @@ def run(ctx):
                 "non-trivial = the circuit has at least one operation node or the edit raised; distinct by (initial registers, whole edit history so far)")
     drv = du.RDriver()
     rng = ctx.rng
-    class_table(res)
+    # the streams run under common.impl_guard: graphiq calls made outside apply_edit / the query wrappers (constructors, copy(),
+    # find_incompatible_edges while choosing an edit, op.unwrap() ...) that raise are reported instead of ending as exit 2
+    with impl_guard(res, "ops.table"):
+        class_table(res)
+    n2 = n3 = 0
     if ctx.quick:
-        n2 = exhaustive(ctx, res, drv, 2, SMALL_INITS)
-        n3 = exhaustive(ctx, res, drv, 3, [(1, 1, 0)], cap=2500)
+        with impl_guard(res, "exhaustive", promise=True):
+            n2 = exhaustive(ctx, res, drv, 2, SMALL_INITS)
+            n3 = exhaustive(ctx, res, drv, 3, [(1, 1, 0)], cap=2500)
         res.notes.append(f"exhaustive: {n2} histories of <= 2 edits on <= 3 registers from {len(SMALL_INITS)} initial circuits; {n3} histories of <= 3 edits from (1,1,0) (capped)")
         plan = [((rng.randrange(1, 3), rng.randrange(0, 3), rng.randrange(0, 2)), 60, 1) for _ in range(60)] + \
                [((rng.randrange(1, 4), rng.randrange(1, 4), rng.randrange(0, 3)), 300, 5) for _ in range(8)]
     else:
-        n3 = exhaustive(ctx, res, drv, 3, SMALL_INITS)
-        res.exhaustive = True
+        with impl_guard(res, "exhaustive", promise=True):
+            n3 = exhaustive(ctx, res, drv, 3, SMALL_INITS)
+            res.exhaustive = True
         res.notes.append(f"exhaustive: all {n3} histories of <= 3 edits (menu of every position x fixed operation classes) on <= 3 registers from {len(SMALL_INITS)} initial circuits")
         plan = [((rng.randrange(0, 3), rng.randrange(0, 3), rng.randrange(0, 2)), 80, 1) for _ in range(400)] + \
                [((rng.randrange(1, 4), rng.randrange(1, 4), rng.randrange(0, 3)), 300, 4) for _ in range(80)]
     for k, (init, steps, qe) in enumerate(plan):
-        one_walk(ctx, res, drv, rng, init, steps, query_every=qe, misuse_end=(k % 3 == 0))
+        with impl_guard(res, "walk", promise=True, input={"ne": init[0], "np": init[1], "nc": init[2], "walk": k}):
+            one_walk(ctx, res, drv, rng, init, steps, query_every=qe, misuse_end=(k % 3 == 0))
         if new_violations(res):
             break
     res.extra["driver_lines"] = drv.n_lines
